@@ -8,7 +8,7 @@ CONSTANTS
   NVSpace = "none"
   NCompoundV = "none"
   NKinds = {}
-  FKinds = {"save", "okflag", "use", "ifflag", "ifok", "else"}
+  FKinds = {"save", "use", "ifok", "whok", "whflag"}
   FConds = {"int"}
   FLits = {"a"}
   FDecls = {"is"}
